@@ -63,9 +63,12 @@ static inline uint32_t model_pool_id(uint32_t pool_count, uint32_t g0, size_t si
 }
 
 // ---- alloc: every size; the OS refuses new mappings, so the request is served from the block or fails.
-template<uint32_t W, uint32_t G0, uint32_t PID, uint32_t OPT> static void check_alloc() {
+// K bounds the fragmentation of the pre-state (number of free runs): the search loop runs once per free run that is too
+// small, and the unwinding bound has to cover it.
+template<uint32_t W, uint32_t G0, uint32_t PID, uint32_t OPT, uint32_t K> static void check_alloc() {
   World<W> w = world1<W, G0, PID, OPT>();
   constexpr uint32_t A = 64 * W;
+  V_ASSUME(w.pre.free_run_count() <= K);
   vm_alloc_fail = true;
   size_t size = nondet_bool() ? size_t(nondet_u16()) : size_t(nondet_u64());
   JitAllocator::Span span; span._rx = arena_rx; span._size = 77;
@@ -123,24 +126,36 @@ template<uint32_t W, uint32_t G0, uint32_t PID, uint32_t OPT> static void check_
     }
   }
 }
-HARNESS h_alloc_w1() { check_alloc<1, 64, 0, 0>(); }
-HARNESS h_alloc_w2() { check_alloc<2, 64, 0, 0>(); }
+HARNESS h_alloc_w1() { check_alloc<1, 64, 0, 0, 2>(); }
+HARNESS h_alloc_w2() { check_alloc<2, 64, 0, 0, 2>(); }
+
+// Known findings (see /verif/known_findings.jsonl). MODE 0: main harness, the finding's input region is excluded while the
+// entry is open; MODE 1 / 2: companion harness confined to the region of C09A / C09B.
+//  C09A: a block that was full once keeps search_end = 0 while incremental; the first release/shrink that leaves incremental
+//        mode then computes the window from that stale value and the free tail [search_start, area) falls outside it.
+//  C09B: a block emptied by a release at the incremental frontier is not flagged empty (never unmapped / not counted).
+template<int MODE> static inline void kf_region(bool in_c09a, bool in_c09b) {
+  if (MODE == 1) V_ASSUME(in_c09a && !in_c09b);
+  else if (MODE == 2) V_ASSUME(in_c09b && !in_c09a);
+  else {
+#if KF_C09A
+    V_ASSUME(!in_c09a);
+#endif
+#if KF_C09B
+    V_ASSUME(!in_c09b);
+#endif
+  }
+}
 
 // ---- release of a live span (rx anywhere inside its first granule)
-template<uint32_t W, uint32_t G0, uint32_t PID, uint32_t OPT> static void check_release() {
+template<uint32_t W, uint32_t G0, uint32_t PID, uint32_t OPT, int MODE = 0> static void check_release() {
   World<W> w = world1<W, G0, PID, OPT, false>();
   constexpr uint32_t A = 64 * W;
   uint32_t g = nondet_u8(); V_ASSUME(w.pre.is_span_start(g));
   uint32_t e = w.pre.span_end(g), n = e - g;
   bool frontier = (w.pre.flags & kFI) && w.pre.ss == e;
-#if KF_J1
-  // known finding J1: leaving incremental mode with a stale search_end (block was full once) loses the free tail
-  V_ASSUME(!((w.pre.flags & kFI) && w.pre.se != A && !frontier && w.pre.ss < A));
-#endif
-#if KF_J2
-  // known finding J2: a block emptied through the incremental-frontier path is not flagged empty
-  V_ASSUME(!(frontier && w.pre.area_used - n == w.pre.P()));
-#endif
+  bool emptied = w.pre.area_used - n == w.pre.P();
+  kf_region<MODE>((w.pre.flags & kFI) && w.pre.se != A && !frontier && w.pre.ss < A, frontier && emptied);
   uint8_t* rx = w.b->rx_ptr() + size_t(g) * w.G + (nondet_u16() % w.G);
   void* brx = w.b->_mapping.rx; void* brw = w.b->_mapping.rw; size_t bsz = w.b->_block_size;
   Error err = allocator()->release(rx);
@@ -148,7 +163,6 @@ template<uint32_t W, uint32_t G0, uint32_t PID, uint32_t OPT> static void check_
   V_ASSERT(err == Error::kOk, "release: a live span is released");
   V_ASSERT(lock_depth == 0 && lock_count == 1 && unlock_count == 1, "release: lock taken once and released");
   V_ASSERT(w.im->allocation_count == w.alloc_count_pre - 1, "release: one allocation less accounted");
-  bool emptied = w.pre.area_used - n == w.pre.P();
   if (vm_release_calls == 0) {
     BState<W> post; snapshot<W>(post, w.b);
     assert_inv<W>(w.b);
@@ -164,17 +178,194 @@ template<uint32_t W, uint32_t G0, uint32_t PID, uint32_t OPT> static void check_
     V_ASSERT(!emptied || (post.flags & kFE), "release: a block that became empty is flagged empty");
     V_ASSERT(!(emptied && (w.options & kOptImmediate)), "release: immediate release does not retain an empty block");
     V_WITNESS("release-kept");
-    if (emptied) V_WITNESS("release-emptied-kept");
-    if constexpr (W > 1) { if (g < 64 && e > 64) V_WITNESS("release-crosses-word"); }
+    if constexpr (MODE == 2 || (MODE == 0 && (OPT & kOptImmediate) == 0)) { if (emptied) V_WITNESS("release-emptied-kept"); }
+    if constexpr (W > 1 && MODE == 0) { if (g < 64 && e > 64) V_WITNESS("release-crosses-word"); }
   } else {
     V_ASSERT(emptied && (w.options & kOptImmediate), "release: the block is only unmapped when it became empty under immediate release");
     V_ASSERT(vm_release_calls == 1 && vm_released_rx == brx && vm_released_rw == brw && vm_released_size == bsz, "release: unmaps exactly the block mapping");
     V_ASSERT(w.im->tree._root == nullptr && w.pl->blocks.first() == nullptr && w.pl->blocks.last() == nullptr && w.pl->cursor == nullptr && w.pl->block_count == 0, "release: deleted block is unlinked from tree, list and cursor");
     V_ASSERT(w.pl->total_area_size[0] == 0 && w.pl->total_area_size[1] == 0 && w.pl->total_area_used[0] == 0 && w.pl->total_area_used[1] == 0 && w.pl->total_overhead_bytes == 0 && w.pl->empty_block_count == 0, "release: deleted block leaves no accounting behind");
-    if constexpr ((OPT & kOptImmediate) != 0) V_WITNESS("release-deleted");
+    if constexpr ((OPT & kOptImmediate) != 0 && MODE == 0) V_WITNESS("release-deleted");
   }
 }
 HARNESS h_release_w1() { check_release<1, 64, 0, 0>(); }
 HARNESS h_release_w2() { check_release<2, 64, 0, 0>(); }
 HARNESS h_release_imm_w1() { check_release<1, 64, 0, kOptImmediate>(); }
+HARNESS h_release_kf_C09A() { check_release<1, 64, 0, 0, 1>(); }
+HARNESS h_release_kf_C09B() { check_release<1, 64, 0, kOptImmediate, 2>(); }
 
+
+
+// ---- shrink(span, new_size), new_size != 0, span.rx = first byte of any granule of the block (live, interior or free)
+template<uint32_t W, uint32_t G0, uint32_t PID, uint32_t OPT, int MODE = 0> static void check_shrink() {
+  World<W> w = world1<W, G0, PID, OPT>();
+  constexpr uint32_t A = 64 * W;
+  uint32_t g = nondet_u8(); V_ASSUME(g < A);
+  size_t new_size = nondet_bool() ? size_t(nondet_u16()) : size_t(nondet_u64());
+  V_ASSUME(new_size != 0);   // shrink(span, 0) is release(span.rx), see h_shrink_zero
+#if KF_C09F
+  // known finding C09F: byte sizes of 2^38 and more wrap in area_size_from_byte_size
+  V_ASSUME(MODE == 3 || new_size <= (size_t(1) << 37));
+#endif
+  if (MODE == 3) V_ASSUME(new_size > (size_t(1) << 37));
+  bool used = w.pre.used(g);
+  uint32_t e = used ? w.pre.span_end(g) : 0, prev = e - g;
+  uint32_t k = uint32_t((new_size + w.G - 1) / w.G);             // granules kept (meaningful for sizes that do not wrap)
+  bool frontier = (w.pre.flags & kFI) && w.pre.ss == e;
+  bool shrinks = used && new_size <= size_t(prev) * w.G && k < prev;
+  kf_region<(MODE == 3 ? 0 : MODE)>(shrinks && (w.pre.flags & kFI) && w.pre.se != A && !frontier && w.pre.ss < A, false);
+  JitAllocator::Span span; span._rx = w.b->rx_ptr() + size_t(g) * w.G; span._rw = w.b->rw_ptr() + size_t(g) * w.G;
+  span._size = nondet_u32(); span._block = w.b;
+  size_t size_in = span._size;
+  Error err = allocator()->shrink(span, new_size);
+  verif_observe(uint64_t(err)); verif_observe(span._size);
+  BState<W> post; snapshot<W>(post, w.b);
+  assert_inv<W>(w.b);
+  assert_pool1<W>(w);
+  V_ASSERT(w.im->allocation_count == w.alloc_count_pre, "shrink: number of allocations unchanged");
+  V_ASSERT(lock_count == 1, "shrink: lock taken exactly once");
+  if (!used) {
+    V_ASSERT(err == Error::kInvalidArgument, "shrink: a span whose first granule is free (stale) is refused");
+    V_ASSERT(same_state<W>(w.pre, post) && span._size == size_in, "shrink: refusal changes nothing");
+    if constexpr (MODE == 0) V_WITNESS("shrink-stale-refused");
+  } else if (new_size > size_t(prev) * w.G) {
+    V_ASSERT(err == Error::kInvalidArgument, "shrink: growing is refused");
+    V_ASSERT(same_state<W>(w.pre, post) && span._size == size_in, "shrink: refusal changes nothing");
+    if constexpr (MODE == 0) V_WITNESS("shrink-grow-refused"); if constexpr (MODE == 3) V_WITNESS("shrink-huge-size");
+  } else {
+    V_ASSERT(err == Error::kOk, "shrink: accepted");
+    if (k == prev) {
+      V_ASSERT(same_state<W>(w.pre, post) && span._size == size_in, "shrink: same number of granules changes nothing");
+      if constexpr (MODE == 0) V_WITNESS("shrink-noop");
+    } else {
+      bool bits_ok = true;
+      for (uint32_t i = 0; i < W; i++) {
+        uint64_t m = rangemask_w(i, g + k, e), old_stop = rangemask_w(i, e - 1, e), new_stop = rangemask_w(i, g + k - 1, g + k);
+        bits_ok = bits_ok && post.U[i] == (w.pre.U[i] & ~m) && post.S[i] == ((w.pre.S[i] & ~old_stop) | new_stop);
+      }
+      V_ASSERT(bits_ok, "shrink: exactly the tail granules become free and the stop bit moves to the new last granule");
+      V_ASSERT(post.area_used == w.pre.area_used - (prev - k), "shrink: area_used shrinks by the number of granules freed (I c4)");
+      V_ASSERT(span._size == size_t(k) * w.G && span._rx == w.b->rx_ptr() + size_t(g) * w.G, "shrink: span keeps its start and reports the new size");
+      V_ASSERT(post.has_free_run(prev - k), "shrink: the freed tail is free");
+      if constexpr (MODE != 3) V_WITNESS("shrink-shrunk");
+      if constexpr (W > 1) { if (g + k < 64 && e > 64) V_WITNESS("shrink-crosses-word"); }
+    }
+  }
+}
+HARNESS h_shrink_w1() { check_shrink<1, 64, 0, 0>(); }
+HARNESS h_shrink_w2() { check_shrink<2, 64, 0, 0>(); }
+HARNESS h_shrink_kf_C09A() { check_shrink<1, 64, 0, 0, 1>(); }
+HARNESS h_shrink_kf_C09F() { check_shrink<1, 64, 0, 0, 3>(); }
+
+// ---- query(rx), rx anywhere in the arena (inside the block: live, interior, free; outside: foreign)
+template<uint32_t W, uint32_t G0, uint32_t PID, uint32_t OPT> static void check_query() {
+  World<W> w = world1<W, G0, PID, OPT>();
+  constexpr uint32_t A = 64 * W;
+  size_t bs = size_t(A) * w.G;
+  size_t off = nondet_u32() & 0xFFFF;                     // 4 slots of at most 8 KiB: inside and beyond
+  uint8_t* rx = arena_at(arena_rx, off);
+  size_t boff = size_t(w.slot) * bs;
+  JitAllocator::Span span; span._rx = arena_rx; span._size = 77; span._block = w.b;
+  Error err = allocator()->query(Out(span), rx);
+  verif_observe(uint64_t(err)); verif_observe(span._size);
+  BState<W> post; snapshot<W>(post, w.b);
+  V_ASSERT(same_state<W>(w.pre, post), "query: never changes the block");
+  assert_pool1<W>(w);
+  V_ASSERT(w.im->allocation_count == w.alloc_count_pre && lock_count == 1, "query: accounts nothing, lock taken once");
+  if (off < boff || off >= boff + bs) {
+    V_ASSERT(err == Error::kInvalidArgument && span._rx == nullptr && span._size == 0 && span._block == nullptr, "query: a foreign pointer is refused with an empty span");
+    V_WITNESS("query-foreign");
+    if (off == boff + bs) V_WITNESS("query-one-past-the-block");
+  } else {
+    uint32_t g = uint32_t((off - boff) / w.G);
+    if (!w.pre.used(g)) {
+      V_ASSERT(err == Error::kInvalidArgument && span._rx == nullptr && span._size == 0, "query: a pointer into free memory is refused");
+      V_WITNESS("query-free");
+    } else {
+      uint32_t e = w.pre.span_end(g);
+      V_ASSERT(err == Error::kOk && span._block == w.b, "query: a pointer into used memory is answered");
+      V_ASSERT(span._rx == w.b->rx_ptr() + size_t(g) * w.G && span._rw == w.b->rw_ptr() + size_t(g) * w.G, "query: span starts at the granule of rx in both views");
+      V_ASSERT(span._size == size_t(e - g) * w.G && e <= A, "query: span ends where the live span ends");
+      if (w.pre.is_span_start(g)) V_WITNESS("query-span-start"); else V_WITNESS("query-interior-or-padding");
+    }
+  }
+}
+HARNESS h_query_w1() { check_query<1, 64, 0, 0>(); }
+HARNESS h_query_w2() { check_query<2, 64, 0, kOptDual>(); }
+
+// ---- pointers the allocator must reject, and the uninitialised allocator
+HARNESS h_reject() {
+  World<1> w = world1<1, 64, 0, 0>();
+  size_t bs = 64 * 64, boff = size_t(w.slot) * bs;
+  uint32_t which = nondet_u8() & 3;
+  Error err;
+  if (which == 0) {
+    err = allocator()->release(nullptr);
+    V_ASSERT(err == Error::kInvalidArgument && lock_count == 0, "release(null) is an invalid argument");
+    V_WITNESS("release-null");
+  } else if (which == 1) {
+    size_t off = nondet_u32() & 0xFFFF; V_ASSUME(off < boff || off >= boff + bs);
+    err = allocator()->release(arena_at(arena_rx, off));
+    V_ASSERT(err == Error::kInvalidState, "release of a foreign pointer is refused");
+    V_WITNESS("release-foreign");
+  } else if (which == 2) {
+    JitAllocator::Span span; span._rx = nullptr; span._block = w.b; span._size = 64;
+    err = allocator()->shrink(span, 1 + nondet_u16());
+    V_ASSERT(err == Error::kInvalidArgument && lock_count == 0, "shrink of a null span is refused");
+    V_WITNESS("shrink-null");
+  } else {
+    JitAllocator::Span span; span._rx = w.b->rx_ptr(); span._block = nullptr; span._size = 64;
+    err = allocator()->shrink(span, 1 + nondet_u16());
+    V_ASSERT(err == Error::kInvalidArgument, "shrink of a span without block is refused");
+    V_WITNESS("shrink-no-block");
+  }
+  BState<1> post; snapshot<1>(post, w.b);
+  V_ASSERT(same_state<1>(w.pre, post) && w.im->allocation_count == w.alloc_count_pre, "rejected call changes nothing");
+  assert_pool1<1>(w);
+}
+
+// JitAllocator whose construction failed: every entry reports kNotInitialized (and touches nothing).
+HARNESS h_not_initialized() {
+  env_reset();
+  allocator()->_impl = const_cast<JitAllocator::Impl*>(&JitAllocatorImpl_none);
+  JitAllocator::Span span;
+  uint32_t which = nondet_u8() & 3;
+  if (which == 0) { V_ASSERT(allocator()->alloc(Out(span), 1 + nondet_u16()) == Error::kNotInitialized && span._rx == nullptr, "uninitialised: alloc refused"); }
+  else if (which == 1) { V_ASSERT(allocator()->release(arena_rx) == Error::kNotInitialized, "uninitialised: release refused"); }
+  else if (which == 2) { span._rx = arena_rx; span._block = arena_rx; V_ASSERT(allocator()->shrink(span, 1) == Error::kNotInitialized, "uninitialised: shrink refused"); }
+  else { V_ASSERT(allocator()->query(Out(span), arena_rx) == Error::kNotInitialized && span._rx == nullptr, "uninitialised: query refused"); }
+  JitAllocator::Statistics st = allocator()->statistics();
+  V_ASSERT(st.block_count() == 0 && st.allocation_count() == 0 && st.used_size() == 0 && st.reserved_size() == 0 && st.overhead_size() == 0, "uninitialised: statistics are zero");
+  allocator()->reset(ResetPolicy::kHard);
+  V_ASSERT(lock_count == 0, "uninitialised: no lock taken");
+#if !KF_C09C
+  V_ASSERT(!allocator()->is_initialized(), "uninitialised allocator reports not initialised");
+#endif
+  V_WITNESS("not-initialised");
+}
+
+// ---- statistics() = recomputation from the bit vectors; is_initialized()
+HARNESS h_statistics() {
+  World<2> w = world1<2, 64, 0, 0>();
+  JitAllocator::Statistics st = allocator()->statistics();
+  verif_observe(st.used_size()); verif_observe(st.allocation_count());
+  V_ASSERT(st.block_count() == 1 && st.reserved_size() == size_t(128) * 64, "statistics: blocks and reserved bytes");
+  V_ASSERT(st.used_size() == size_t(popcount_v<2>(w.pre.U)) * 64, "statistics: used bytes = used granules times granularity");
+  V_ASSERT(st.allocation_count() == w.pre.stop_count() - w.pre.P(), "statistics: allocation count = live spans");
+  V_ASSERT(st.overhead_size() == block_overhead(128), "statistics: overhead");
+  V_ASSERT(lock_count == 1 && lock_depth == 0, "statistics: lock taken once and released");
+  BState<2> post; snapshot<2>(post, w.b);
+  V_ASSERT(same_state<2>(w.pre, post), "statistics: changes nothing");
+#if !KF_C09C
+  V_ASSERT(allocator()->is_initialized(), "working allocator reports initialised");
+#endif
+  V_WITNESS("statistics");
+}
+// known finding C09C: is_initialized() is inverted (block_size == 0 is the NOT initialised state)
+HARNESS h_initialized_kf_C09C() {
+  bool real = nondet_bool();
+  if (real) { World<1> w = world1<1, 64, 0, 0>(); (void)w; }
+  else { env_reset(); allocator()->_impl = const_cast<JitAllocator::Impl*>(&JitAllocatorImpl_none); }
+  V_ASSERT(allocator()->is_initialized() == real, "is_initialized is true exactly for a constructed allocator");
+  V_WITNESS("is-initialized");
+}
